@@ -203,7 +203,7 @@ func guardedByLoopVarLeq(e *Event, L *LoopCtx) Poly {
 }
 
 func c17Consumer(p *Prog, r *Report) {
-	r.Rule("C17.R4", "consumer agreement: the simulator numbers the same lines the calculator counts (non-empty batch lines, filtered where they are read) and '-lines a-b' executes exactly indices a-1 .. b-1 of them: no content-dependent skip in the dispatch loop; the start index is int(text before the dash) − 1 for every a-b and a-end argument, the end line int(text after the dash) unless it is the word end, a plain count sets the end line, the value argument is consumed, the dispatcher receives (start, end, lines) in its parameter order; nothing else in the argument loop writes them", 13)
+	r.Rule("C17.R4", "consumer agreement: the simulator numbers the same lines the calculator counts (non-empty batch lines, filtered where they are read) and '-lines a-b' executes exactly indices a-1 .. b-1 of them: no content-dependent skip in the dispatch loop; the start index is int(text before the dash) − 1 for every a-b and a-end argument, the end line int(text after the dash) unless it is the word end, a plain count sets the end line, the value argument is consumed, the dispatcher receives (start, end, lines) in its parameter order; nothing else in the argument loop writes them; batch lines are what the default line scanner delivers", 14)
 	fi := p.Funcs["hermes2go.main"]
 	x := walked(p, "hermes2go.main")
 	if fi == nil || x == nil {
@@ -251,6 +251,61 @@ func c17Consumer(p *Prog, r *Report) {
 				unguarded = true
 			}
 		}
+	}
+	// what a "line" is: the simulator numbers the lines a bufio.Scanner with the default splitter delivers (line feed
+	// removed, one trailing carriage return removed) — the calculator's counter is built to agree with exactly that
+	{
+		okSplit := false
+		detS := "the appended batch line is not the text of a line scanner"
+		ast.Inspect(fi.Decl.Body, func(n ast.Node) bool {
+			call, ok := n.(*ast.CallExpr)
+			if !ok || types_ExprString(call.Fun) != "append" || len(call.Args) != 2 {
+				return true
+			}
+			if id, ok := call.Args[0].(*ast.Ident); !ok || id.Name != "configLines" {
+				return true
+			}
+			lo := useObj(info, call.Args[1])
+			if lo == nil {
+				return true
+			}
+			for _, d := range defsOf(info, fi.Decl.Body, lo) {
+				c, ok := stripParens(d.Rhs).(*ast.CallExpr)
+				if !ok {
+					continue
+				}
+				f := callee(info, c)
+				if f == nil || f.FullName() != "(*bufio.Scanner).Text" {
+					detS = "the appended batch line comes from " + types_ExprString(c.Fun) + ", not from a line scanner"
+					continue
+				}
+				// the scanner: bufio.NewScanner(...) and no Split call on it
+				se, _ := c.Fun.(*ast.SelectorExpr)
+				so := useObj(info, se.X)
+				isNew, custom := false, false
+				for _, sd := range defsOf(info, fi.Decl.Body, so) {
+					if sc, ok := stripParens(sd.Rhs).(*ast.CallExpr); ok {
+						if sf := callee(info, sc); sf != nil && sf.FullName() == "bufio.NewScanner" {
+							isNew = true
+						}
+					}
+				}
+				ast.Inspect(fi.Decl.Body, func(m ast.Node) bool {
+					if mc, ok := m.(*ast.CallExpr); ok {
+						if mf := callee(info, mc); mf != nil && mf.FullName() == "(*bufio.Scanner).Split" {
+							if ms, ok := mc.Fun.(*ast.SelectorExpr); ok && useObj(info, ms.X) == so {
+								custom = true
+							}
+						}
+					}
+					return true
+				})
+				okSplit = isNew && !custom
+				detS = fmt.Sprintf("batch lines are the texts of a bufio.Scanner (new scanner: %v, custom splitter: %v)", isNew, custom)
+			}
+			return true
+		})
+		r.Ob("line-splitting", p.Pos(fi.Decl.Pos()), okSplit, detS+" — the calculator counts non-empty lines as that splitter delivers them (a blank CR LF line is empty for it)")
 	}
 	r.Ob("non-empty-lines", p.Pos(fi.Decl.Pos()), found && !unguarded, fmt.Sprintf("batch lines are appended only when non-empty (guarded append found: %v, unguarded append: %v): line numbers agree with the calculator's count of non-empty lines", found, unguarded))
 	// (ii) -lines a-b → startLine = a-1, endLine = b
